@@ -93,9 +93,19 @@ end
 section
 variable (S : Segmenter) (U : UData) (cfg : EdCfg)
 
-/-- `Sh` is an invariant of `m`; an early exit leaves a coherent log -/
-structure Pres {α : Type} (m : EM α) : Prop where
-  h : ∀ s, Sh S U cfg s → wp m (fun _ s' => Sh S U cfg s') (fun _ s' => LogOK S U cfg s') s
+/-- an invariant of the editor state that depends on the key `Ed.sk` only, lies between `Sh` and `LogInv` -/
+class SkInv (I : Ed → Prop) : Prop where
+  of_sk : ∀ {s s' : Ed}, I s → s'.sk = s.sk → I s'
+  inv : ∀ {s : Ed}, I s → LogInv S U cfg s
+  of_sh : ∀ {s : Ed}, Sh S U cfg s → I s
+
+instance : SkInv S U cfg (Sh S U cfg) := ⟨fun h e => h.of_sk e, fun h => h.inv, fun h => h⟩
+instance : SkInv S U cfg (ShA S U cfg) := ⟨fun h e => h.of_sk e, fun h => h.inv, fun h => h.any⟩
+
+/-- `I` is an invariant of `m`; an early exit leaves a coherent log.  `I` is `Sh` (prompt, line and cursor
+    shown) in the main loop and `ShA` (the prompt may be that of an incremental search) in the search loop. -/
+structure Pres (I : Ed → Prop) {α : Type} (m : EM α) : Prop where
+  h : ∀ s, I s → wp m (fun _ s' => I s') (fun _ s' => LogOK S U cfg s') s
 
 /-- `m` repaints: from any state with a coherent log and a known cursor to `Sh` -/
 structure Est {α : Type} (m : EM α) : Prop where
@@ -104,33 +114,36 @@ structure Est {α : Type} (m : EM α) : Prop where
 variable {S U cfg}
 
 namespace Pres
-variable {α β : Type}
+variable {α β : Type} {I : Ed → Prop}
 
-theorem pure (a : α) : Pres S U cfg (pure a : EM α) := ⟨fun _ h => h⟩
+theorem pure (a : α) : Pres S U cfg I (pure a : EM α) := ⟨fun _ h => h⟩
 
-theorem bind {m : EM α} {g : α → EM β} (hm : Pres S U cfg m) (hg : ∀ a, Pres S U cfg (g a)) :
-    Pres S U cfg (m >>= g) := by
+theorem bind {m : EM α} {g : α → EM β} (hm : Pres S U cfg I m) (hg : ∀ a, Pres S U cfg I (g a)) :
+    Pres S U cfg I (m >>= g) := by
   constructor
   intro s h
   rw [wp_bind]
   exact wp_mono (hm.h s h) (fun a s' h' => (hg a).h s' h') (fun _ _ h' => h')
 
 theorem bind' {m : Ed → Except (Outcome × Ed) (α × Ed)} {g : α → EM β}
-    (hm : Pres S U cfg (m : EM α)) (hg : ∀ a, Pres S U cfg (g a)) : Pres S U cfg (@Bind.bind EM _ α β m g) :=
+    (hm : Pres S U cfg I (m : EM α)) (hg : ∀ a, Pres S U cfg I (g a)) :
+    Pres S U cfg I (@Bind.bind EM _ α β m g) :=
   Pres.bind hm hg
 
-theorem ite {c : Prop} [Decidable c] {a b : EM α} (ha : Pres S U cfg a) (hb : Pres S U cfg b) :
-    Pres S U cfg (if c then a else b) := by
+theorem ite {c : Prop} [Decidable c] {a b : EM α} (ha : Pres S U cfg I a) (hb : Pres S U cfg I b) :
+    Pres S U cfg I (if c then a else b) := by
   split <;> assumption
 
-theorem of_keeps {m : EM α} (hk : Keeps Ed.sk m) : Pres S U cfg m := by
+theorem of_keeps [hI : SkInv S U cfg I] {m : EM α} (hk : Keeps Ed.sk m) : Pres S U cfg I m := by
   constructor
   intro s h
-  exact wp_mono (hk.wp s) (fun _ s' e => h.of_sk e) (fun _ s' e => (h.of_sk e).ok)
+  exact wp_mono (hk.wp s) (fun _ s' e => hI.of_sk h e) (fun _ s' e => (hI.inv (hI.of_sk h e)).ok)
 
-theorem exit (o : Outcome) : Pres S U cfg (EM.exit o : EM α) := ⟨fun _ h => h.ok⟩
+theorem exit [hI : SkInv S U cfg I] (o : Outcome) : Pres S U cfg I (EM.exit o : EM α) :=
+  ⟨fun _ h => (hI.inv h).ok⟩
 
-theorem of_est {m : EM α} (hm : Est S U cfg m) : Pres S U cfg m := ⟨fun s h => hm.h s h.inv⟩
+theorem of_est [hI : SkInv S U cfg I] {m : EM α} (hm : Est S U cfg m) : Pres S U cfg I m :=
+  ⟨fun s h => wp_mono (hm.h s (hI.inv h)) (fun _ _ h' => hI.of_sh h') (fun _ _ h' => h')⟩
 
 end Pres
 
@@ -146,7 +159,7 @@ theorem lk_of_sk {α : Type} {m : EM α} (h : Keeps Ed.sk m) : Keeps Ed.lk m :=
 
 end
 
-/-- closes / decomposes a goal `Pres S U cfg m` -/
+/-- closes / decomposes a goal `Pres S U cfg (Sh S U cfg) m` -/
 macro "sh_pres_step" : tactic => `(tactic| first
   | intro _
   | with_reducible (first
@@ -188,6 +201,7 @@ macro "sh_pres_step" : tactic => `(tactic| first
     | exact Pres.of_keeps sk_ringYankPop
     | exact Pres.of_keeps (sk_ringKill _))
   | ((with_reducible apply Pres.of_keeps) <;> (with_reducible apply Keeps.modify) <;> (intro _; rfl))
+  | exact Pres.of_keeps (Keeps.read _)
   | split
   | dsimp only)
 
@@ -205,36 +219,15 @@ variable (hc : 2 ≤ cfg.cols) (hprompt : C02_Plain S (edR U cfg) cfg.prompt)
 include hc hprompt
 set_option linter.unusedSectionVars false
 
-theorem pres_refreshLine : Pres S U cfg (refreshLine S U cfg) :=
+theorem pres_refreshLine : Pres S U cfg (Sh S U cfg) (refreshLine S U cfg) :=
   ⟨fun _ h => wp_refreshLine_sh hc hprompt h.inv⟩
 
 theorem est_refreshLine : Est S U cfg (refreshLine S U cfg) :=
   ⟨fun _ h => wp_refreshLine_sh hc hprompt h⟩
 
 theorem pres_customBinding (keys : List KeyEvent) (n : Nat) (p : Bool) :
-    Pres S U cfg (customBinding cfg keys n p) :=
+    Pres S U cfg (Sh S U cfg) (customBinding cfg keys n p) :=
   ⟨fun _ h => wp_customBinding_sh hc hprompt keys n p h⟩
-
-theorem pres_customSeqBinding (fuel : Nat) (keys : List KeyEvent) (n : Nat) (p : Bool) :
-    Pres S U cfg (customSeqBinding cfg fuel keys n p) := by
-  induction fuel generalizing keys with
-  | zero => unfold customSeqBinding; sh_pres
-  | succ k ih =>
-    unfold customSeqBinding
-    sh_pres
-    exact ih _
-
-theorem pres_common_fallback (fuel : Nat) (keys : List KeyEvent) (n : Nat) (p : Bool) :
-    Pres S U cfg (common.fallback cfg fuel keys n p) := by
-  unfold common.fallback
-  sh_pres
-  exact pres_customSeqBinding hc hprompt _ _ _ _
-
-theorem pres_common (fuel : Nat) (keys : List KeyEvent) (key : KeyEvent) (n : Nat) (p : Bool) :
-    Pres S U cfg (common cfg fuel keys key n p) := by
-  have := pres_common_fallback hc hprompt fuel keys n p
-  unfold common
-  sh_pres
 
 /-- the `(arg: n)` loop of emacs mode: a dynamic prompt while the argument is typed, the own prompt again
     before the key that ends it is returned; no callback in between -/
@@ -289,57 +282,97 @@ theorem est_viDigitLoop (fuel : Nat) : Est S U cfg (viDigitLoop S U cfg fuel) :=
       · exact hfin
     · exact hfin
 
-theorem pres_emacs (fuel : Nat) (key : KeyEvent) : Pres S U cfg (emacs S U cfg fuel key) := by
-  have h1 := fun ng m => Pres.of_est (est_emacsDigitLoop hc hprompt ng fuel m)
-  have h2 := fun keys key n p => pres_common hc hprompt fuel keys key n p
-  have h3 := fun keys n p => pres_customSeqBinding hc hprompt fuel keys n p
-  have h4 := fun keys n p => pres_customBinding hc hprompt keys n p
+/-- the callback while a search prompt may be on display -/
+theorem pres_customBinding_any (keys : List KeyEvent) (n : Nat) (p : Bool) :
+    Pres S U cfg (ShA S U cfg) (customBinding cfg keys n p) :=
+  ⟨fun _ h => wp_customBinding_sha hc hprompt keys n p h⟩
+
+/-! the key maps, for `I = Sh` (main loop) and `I = ShA` (inside an incremental search) -/
+variable (I : Ed → Prop) [hI : SkInv S U cfg I]
+variable (hcb : ∀ keys n p, Pres S U cfg I (customBinding cfg keys n p))
+include hI hcb
+
+theorem pres_customSeqBinding (fuel : Nat) (keys : List KeyEvent) (n : Nat) (p : Bool) :
+    Pres S U cfg I (customSeqBinding cfg fuel keys n p) := by
+  induction fuel generalizing keys with
+  | zero => unfold customSeqBinding; sh_pres
+  | succ k ih =>
+    unfold customSeqBinding
+    sh_pres
+    exact ih _
+
+theorem pres_common_fallback (fuel : Nat) (keys : List KeyEvent) (n : Nat) (p : Bool) :
+    Pres S U cfg I (common.fallback cfg fuel keys n p) := by
+  unfold common.fallback
+  sh_pres
+  exact pres_customSeqBinding hc hprompt I hcb _ _ _ _
+
+theorem pres_common (fuel : Nat) (keys : List KeyEvent) (key : KeyEvent) (n : Nat) (p : Bool) :
+    Pres S U cfg I (common cfg fuel keys key n p) := by
+  have := pres_common_fallback hc hprompt I hcb fuel keys n p
+  unfold common
+  sh_pres
+
+theorem pres_emacs (fuel : Nat) (key : KeyEvent) : Pres S U cfg I (emacs S U cfg fuel key) := by
+  have h1 := fun ng m => Pres.of_est (I := I) (est_emacsDigitLoop hc hprompt ng fuel m)
+  have h2 := fun keys key n p => pres_common hc hprompt I hcb fuel keys key n p
+  have h3 := fun keys n p => pres_customSeqBinding hc hprompt I hcb fuel keys n p
+  have h4 := fun keys n p => hcb keys n p
   unfold emacs emacsDigitArgument emacsNumArgs emacs.charSearchCmd
   sh_pres [h1, h2, h3, h4]
 
-theorem pres_viCharSearch (c : Char) : Pres S U cfg (viCharSearch c) := by
+theorem pres_viCharSearch (c : Char) : Pres S U cfg I (viCharSearch c) := by
   unfold viCharSearch; sh_pres
 
-theorem pres_viArgDigit (fuel : Nat) (d : Char) : Pres S U cfg (viArgDigit S U cfg fuel d) := by
-  have := Pres.of_est (est_viDigitLoop hc hprompt fuel)
+theorem pres_viArgDigit (fuel : Nat) (d : Char) : Pres S U cfg I (viArgDigit S U cfg fuel d) := by
+  have := Pres.of_est (I := I) (est_viDigitLoop hc hprompt fuel)
   unfold viArgDigit; sh_pres
 
-theorem pres_viNumArgs : Pres S U cfg viNumArgs := by
+theorem pres_viNumArgs : Pres S U cfg I viNumArgs := by
   unfold viNumArgs; sh_pres
 
 theorem pres_viCmdMotion (fuel : Nat) (key : KeyEvent) (n : Nat) :
-    Pres S U cfg (viCmdMotion S U cfg fuel key n) := by
-  have h1 := fun d => pres_viArgDigit hc hprompt fuel d
-  have h2 := pres_viNumArgs hc hprompt
-  have h3 := fun c => pres_viCharSearch hc hprompt c
+    Pres S U cfg I (viCmdMotion S U cfg fuel key n) := by
+  have h1 := fun d => pres_viArgDigit hc hprompt I hcb fuel d
+  have h2 := pres_viNumArgs hc hprompt I hcb
+  have h3 := fun c => pres_viCharSearch hc hprompt I hcb c
   unfold viCmdMotion
   sh_pres [h1, h3]
 
-theorem pres_viCommand (fuel : Nat) (key : KeyEvent) : Pres S U cfg (viCommand S U cfg fuel key) := by
-  have h1 := fun d => pres_viArgDigit hc hprompt fuel d
-  have h2 := pres_viNumArgs hc hprompt
-  have h3 := fun c => pres_viCharSearch hc hprompt c
-  have h4 := fun key n => pres_viCmdMotion hc hprompt fuel key n
-  have h5 := fun keys key n p => pres_common hc hprompt fuel keys key n p
-  have h6 := fun keys n p => pres_customBinding hc hprompt keys n p
+theorem pres_viCommand (fuel : Nat) (key : KeyEvent) : Pres S U cfg I (viCommand S U cfg fuel key) := by
+  have h1 := fun d => pres_viArgDigit hc hprompt I hcb fuel d
+  have h2 := pres_viNumArgs hc hprompt I hcb
+  have h3 := fun c => pres_viCharSearch hc hprompt I hcb c
+  have h4 := fun key n => pres_viCmdMotion hc hprompt I hcb fuel key n
+  have h5 := fun keys key n p => pres_common hc hprompt I hcb fuel keys key n p
+  have h6 := fun keys n p => hcb keys n p
   unfold viCommand
   sh_pres [h1, h3, h4, h5, h6]
 
-theorem pres_viInsert (fuel : Nat) (key : KeyEvent) : Pres S U cfg (viInsert S U cfg fuel key) := by
-  have h4 := fun key => pres_viCommand hc hprompt fuel key
-  have h5 := fun keys key n p => pres_common hc hprompt fuel keys key n p
-  have h6 := fun keys n p => pres_customBinding hc hprompt keys n p
+theorem pres_viInsert (fuel : Nat) (key : KeyEvent) : Pres S U cfg I (viInsert S U cfg fuel key) := by
+  have h4 := fun key => pres_viCommand hc hprompt I hcb fuel key
+  have h5 := fun keys key n p => pres_common hc hprompt I hcb fuel keys key n p
+  have h6 := fun keys n p => hcb keys n p
   unfold viInsert
   sh_pres [h4, h5, h6]
 
 /-- **`next_cmd` keeps the screen in step**: reading and decoding the next command — the callback included —
     leaves prompt, line and cursor shown. -/
-theorem pres_nextCmd (fuel : Nat) (sea iep : Bool) : Pres S U cfg (nextCmd S U cfg fuel sea iep) := by
-  have h1 := fun key => pres_emacs hc hprompt fuel key
-  have h2 := fun key => pres_viInsert hc hprompt fuel key
-  have h3 := fun key => pres_viCommand hc hprompt fuel key
+theorem pres_nextCmdI (fuel : Nat) (sea iep : Bool) : Pres S U cfg I (nextCmd S U cfg fuel sea iep) := by
+  have h1 := fun key => pres_emacs hc hprompt I hcb fuel key
+  have h2 := fun key => pres_viInsert hc hprompt I hcb fuel key
+  have h3 := fun key => pres_viCommand hc hprompt I hcb fuel key
   unfold nextCmd
   sh_pres [h1, h2, h3]
+
+omit hI hcb in
+theorem pres_nextCmd (fuel : Nat) (sea iep : Bool) : Pres S U cfg (Sh S U cfg) (nextCmd S U cfg fuel sea iep) :=
+  pres_nextCmdI hc hprompt (Sh S U cfg) (fun k n p => pres_customBinding hc hprompt k n p) fuel sea iep
+
+omit hI hcb in
+/-- `next_cmd` inside an incremental search: the prompt on display stays on display -/
+theorem pres_nextCmd_any (fuel : Nat) (sea iep : Bool) : Pres S U cfg (ShA S U cfg) (nextCmd S U cfg fuel sea iep) :=
+  pres_nextCmdI hc hprompt (ShA S U cfg) (fun k n p => pres_customBinding_any hc hprompt k n p) fuel sea iep
 
 end
 end Rl
